@@ -204,12 +204,12 @@ Definition is_opchar (c : N) : bool := (c =? 43) || (c =? 45) || (c =? 47) || (c
 Definition split_expr (t : text) : option (text * N * text) :=
   let sigil := fun c => (c =? 36) || (c =? 37) in
   let '(d1, r1) := span sigil t in
-  let '(w1, r2) := span is_word r1 in
+  let '(w1, r2) := span is_labelch r1 in
   match w1, r2 with
   | _ :: _, op :: r3 =>
       if is_opchar op then
         let '(d2, r4) := span sigil r3 in
-        let '(w2, r5) := span is_word r4 in
+        let '(w2, r5) := span is_labelch r4 in
         match w2, r5 with
         | _ :: _, [] => Some (d1 ++ w1, op, d2 ++ w2)
         | _, _ => None
